@@ -248,6 +248,12 @@ class Parser4(R3.Parser3):
             els = self.block()
             self.eat(";")
             return N("letelse", l2, pat=pat, init=init, els=els), None
+        if s in ("matches", "vec") and self.peek(1) == "!":
+            e = self.expr(stmt=True)
+            if self.peek() == ";":
+                self.eat()
+                return N("exprstmt", l2, e=e), None
+            return None, e
         return super().one_stmt()
 
     def primary(self):
@@ -520,6 +526,20 @@ class TT:
         for header, self_ty, names, skip, retov in CONTAINERS_TT:
             lo, hi = R.find_container(toks, 0, len(toks), header, SEARCHER)
             raws, rconsts, _ = R2.scan_items2(toks, lo, hi, SEARCHER)
+            assoc = {}
+            j = lo
+            while j < hi:                          # `type Item = T;` of a trait impl
+                if toks[j].s == "{":
+                    j = R.match_close(toks, j, "{", "}") + 1
+                    continue
+                if toks[j].s == "type" and toks[j + 2].s == "=":
+                    j2 = j + 3
+                    while toks[j2].s != ";":
+                        j2 += 1
+                    tp = Parser4(toks[j + 3:j2], SEARCHER, self_ty)
+                    assoc[toks[j + 1].s] = tp.ty()
+                    j = j2
+                j += 1
             for cname, etoks, line, attrs in rconsts:
                 ss = [x.s for x in etoks]
                 if not (len(ss) == 3 and ss[0] == "usize" and ss[1] == "=" and etoks[2].k == "int"):
@@ -551,10 +571,11 @@ class TT:
                     if not k or sig[k[-1] + 1].s != "impl":
                         die(SEARCHER, raw.line, f"fn {n}: return type override without an `impl Trait` return type")
                     sig = sig[:k[-1] + 1] + [R.Tok("id", retov[n], raw.line)]
-                sp = Parser4(sig, SEARCHER, self_ty)
+                sig = [x for x in sig if x.k != "life"]      # lifetimes are dropped (references are values)
+                sp = Parser4(sig, SEARCHER, self_ty, assoc)
                 params, ret = sp.signature()
                 body_toks = strip_cfg(list(raw.body), SEARCHER, f"{self_ty}::{n}", self.notes)
-                bp = Parser4(body_toks, SEARCHER, self_ty)
+                bp = Parser4(body_toks, SEARCHER, self_ty, assoc)
                 body = bp.block()
                 if bp.i != len(bp.t):
                     die(SEARCHER, raw.line, f"fn {n}: trailing tokens")
@@ -995,10 +1016,15 @@ class TT:
             if cl.body.k == "block":
                 self.err(e, "`.map(|t| e).sum()`: the closure body must be a single expression")
             b, bt = self.ex(cl.body, env2, sub, exp, ind)
-            if sub:
-                self.err(e, "`.map(|t| e).sum()`: the closure must be panic free")
             if bt != "usize":
                 self.err(e, f"`.sum()` over {show(bt)} (only usize)")
+            if sub:
+                # a panicking closure: the mapped list is built with `List.mapM` (in the `Panics` monad the interleaving of the
+                # lazy `map` with the additions of `sum` is not observable: any panic is THE panic)
+                body = "; ".join(x.strip() for x in sub)
+                ms = self.fresh()
+                out.append(f"{ind}let {ms} ← List.mapM (fun ({R.mangle(cl.params[0])} : {self.lty(t[1])}) => do {body}; pure {P(b)}) (Array.toList {P(xs)})")
+                return bind(f"TTPrim.usize_sum {ms}", "usize")
             return bind(f"TTPrim.usize_sum (List.map (fun ({R.mangle(cl.params[0])} : {self.lty(t[1])}) => {b}) (Array.toList {P(xs)}))", "usize")
         if n == "collect" and not args and recv.k == "mcall" and recv.name == "map" and len(recv.args) == 1 \
                 and recv.args[0].k == "path" and recv.args[0].segs == ["RwLock", "new"] \
@@ -1466,6 +1492,7 @@ class TT:
         self.cur = fi
         self.alias = {}
         self.ntmp = 0
+        self.ind = "  "
         self.analyse(fi)
         env = {}
         ps = []
